@@ -694,7 +694,8 @@ class NpEval:
         if h == "recv":
             return np.asarray(self.recv_resolver(t[1], t[2]))
         if h == "send":
-            E(t[1])
+            # the value of a send holder is its passthrough data; what it transmits is evaluated when (and only when)
+            # the matching receive asks for it
             return E(t[4])
         if h == "lpcall":
             from vf import lpkernels
